@@ -600,3 +600,86 @@ Proof.
     simpl pdur. rewrite Ed. rewrite (curve_go_t0 (0 + tofR s) (tofR s)) by ring.
     rewrite curve_go_at_start by exact Hr. reflexivity.
 Qed.
+
+(* ================================================================ 8. the operations do not fail *)
+
+Lemma index_of_in' t l : In t l -> exists i, index_of t l = Some i /\ (i < length l)%nat.
+Proof.
+  induction l as [|y l IH]; simpl; intros H; [tauto|].
+  destruct (Z.eqb_spec t y).
+  - exists 0%nat. split; [reflexivity|lia].
+  - destruct H as [H|H]; [congruence|]. destruct (IH H) as (i & E & L). rewrite E. simpl.
+    exists (S i). split; [reflexivity|lia].
+Qed.
+
+Lemma lastp_total (e2 : envR) en : pwf e2 -> 0 <= en -> In en (pstarts R e2) ->
+  exists lp, lastp_of e2 en = Ok lp.
+Proof.
+  intros W H0 I. destruct (split_at_end en e2 0 W I) as (B & C & E & Ed & HC). subst e2.
+  rewrite Z.add_0_l in Ed. unfold lastp_of.
+  destruct HC as [HC|(c & C' & HC & Pc)]; subst C.
+  - rewrite app_nil_r in *. unfold pindex_at, index_at_from.
+    destruct (Z.ltb_spec en (pdur R B)); [lia|]. cbn [andb].
+    destruct B as [|a B'] using rev_ind; [simpl in I; tauto|]. rewrite rev_unit. eexists; reflexivity.
+  - pose proof W as W'. apply pwf_app in W'. destruct W' as [W1 W2].
+    apply pwf_cons in W2. destruct W2 as [Wc W2]. pose proof (pdur_nonneg _ W2).
+    unfold pindex_at, index_at_from. rewrite pdur_app. cbn [pdur].
+    destruct (Z.ltb_spec en (pdur R B + (pd c + pdur R C'))); [|lia].
+    destruct (Z.leb_spec 0 en); [|lia]. cbn [andb].
+    rewrite (at_bisect B c C' en W) by lia. cbn [Nat.pred].
+    rewrite nth_error_app_length. eexists; reflexivity.
+Qed.
+
+Theorem cut_out_total (e : envR) s en : pwf e -> e <> [] -> 0 <= s -> s <= en ->
+  exists e', env_cut_out R RNum e s en = Ok e'.
+Proof.
+  intros W Ne H0 H1. unfold env_cut_out.
+  destruct (sample_total e s (en - s) W Ne H0 ltac:(lia)) as [e1 E1]. rewrite E1. cbn [bind].
+  pose proof (sample_samp e s (en - s) e1 W ltac:(lia) E1) as S1.
+  pose proof (samp_pwf _ _ _ W S1) as W1.
+  assert (N1 : e1 <> []). { pose proof (samp_in _ _ _ S1) as I. intros ->. exact I. }
+  destruct (sample_total e1 en 0 W1 N1 ltac:(lia) ltac:(lia)) as [e2 E2]. rewrite E2. cbn [bind].
+  pose proof (sample_samp e1 en 0 e2 W1 ltac:(lia) E2) as S2.
+  pose proof (samp_pwf _ _ _ W1 S2) as W2.
+  fold (lastp_of e2 en).
+  destruct (lastp_total e2 en W2 ltac:(lia) (samp_in _ _ _ S2)) as [lp El]. rewrite El. cbn [bind].
+  unfold check_time, check_start_end.
+  destruct (Z.ltb_spec s 0); [lia|]. destruct (Z.ltb_spec en s); [lia|]. cbn [bind].
+  eexists; reflexivity.
+Qed.
+
+Theorem cut_off_total (e : envR) s en : pwf e -> e <> [] -> 0 <= s < en ->
+  exists e', env_cut_off R RNum e s en = Ok e'.
+Proof.
+  intros W Ne [H0 H1]. unfold env_cut_off, check_time, check_start_end_strict.
+  destruct (Z.ltb_spec s 0); [lia|]. destruct (Z.ltb_spec s en); [|lia]. cbn [bind].
+  destruct (sample_total e s 0 W Ne H0 ltac:(lia)) as [e1 E1]. rewrite E1. cbn [bind].
+  pose proof (sample_samp e s 0 e1 W ltac:(lia) E1) as S1.
+  pose proof (samp_pwf _ _ _ W S1) as W1.
+  pose proof (samp_in _ _ _ S1) as I1.
+  assert (N1 : e1 <> []) by (intros ->; exact I1).
+  destruct (index_of_in' s (pstarts R e1) I1) as (k & Ek & Lk). rewrite Ek.
+  unfold pstarts in Lk. rewrite pstarts_from_length in Lk.
+  destruct (nth_error e1 k) as [pk|] eqn:Enk; [|apply nth_error_None in Enk; lia]. cbn [bind].
+  destruct (sample_total e1 en 0 W1 N1 ltac:(lia) ltac:(lia)) as [e2 E2]. rewrite E2. cbn [bind].
+  pose proof (sample_samp e1 en 0 e2 W1 ltac:(lia) E2) as S2.
+  pose proof (samp_pwf _ _ _ W1 S2) as W2.
+  assert (Is : In s (pstarts R e2)) by (apply (samp_starts_mono _ _ _ _ S2), I1).
+  assert (Ien : In en (pstarts R e2)) by apply (samp_in _ _ _ S2).
+  destruct (cut_off_shape e2 s en W2 H0 H1 Is Ien) as (A & B1 & C1 & E & EA & SA & EB & SB & NB & NC).
+  subst e2.
+  pose proof W2 as W'. apply pwf_app in W'. destruct W' as [WA W']. apply pwf_app in W'. destruct W' as [WB WC].
+  assert (Ecut : p_cut_off R s en 0 (A ++ B1 ++ C1) = A ++ C1).
+  { rewrite !p_cut_off_app. rewrite p_cut_off_before; [|exact WA|lia|lia|exact SA].
+    rewrite Z.add_0_l, EA.
+    rewrite p_cut_off_mid; [|exact WB|lia|lia|exact SB].
+    rewrite p_cut_off_after; [reflexivity|exact WC|lia|lia]. }
+  rewrite Ecut. rewrite <- EA. rewrite squash_at_point;
+    [eexists; reflexivity|apply gwf_app; split; assumption|exact NC|reflexivity|rewrite EA; exact SA].
+Qed.
+
+Print Assumptions cut_out_curve.
+Print Assumptions cut_off_curve.
+Print Assumptions cut_out_jump_refuted.
+Print Assumptions cut_out_total.
+Print Assumptions cut_off_total.
